@@ -149,6 +149,7 @@ def _body(fault1, fault2, overwrite, overwrite_part, rm_part, text_mode, perm_i,
     if rm_part and not (before is not None and not overwrite) and not (raced and not overwrite):
         fs.fault_at = ()
         fs.faulted = []
+        fs.racer = None               # ... and without a competitor appearing during the retry (that would be a legitimate refusal)
         e2 = _run(fs, kw, nwrites, 0, payload)
         if e2 is not None:
             return fail('retry_failed', 'retry raised %r after %s' % (e2, tag))
